@@ -43,6 +43,11 @@ var bufCalls = map[string]func(w ion.Writer, buf []byte) error{
 	"WriteClob(buf[200:300])": func(w ion.Writer, b []byte) error { return w.WriteClob(b[200:300]) },
 }
 
+// seqLongCtl is text with n plain bytes in front of characters that need long escapes.
+func seqLongCtl(n int) string {
+	return strings.Repeat("a", n) + "\x01\x02zz \x1f end"
+}
+
 // seqLobPattern is the content of that buffer.
 func seqLobPattern() []byte {
 	b := make([]byte, 400)
@@ -100,6 +105,9 @@ var writerCalls = []wcall{
 	{"Annotation(invalid token)", func(w ion.Writer) error { return w.Annotation(ion.SymbolToken{LocalSID: ion.SymbolIDUnknown}) }, ckAnnot, []string{"!invalid"}},
 	{"WriteClob", func(w ion.Writer) error { return w.WriteClob([]byte("c\"}\x00")) }, ckValue, model.ClobV([]byte("c\"}\x00"))},
 	{"WriteBlob", func(w ion.Writer) error { return w.WriteBlob([]byte{0, 1, 2, 255}) }, ckValue, model.BlobV([]byte{0, 1, 2, 255})},
+	{"WriteString(62 plain bytes, then control characters)", func(w ion.Writer) error { return w.WriteString(seqLongCtl(62)) }, ckValue, model.StrV(seqLongCtl(62))},
+	{"WriteSymbol(61 plain bytes, then control characters)", func(w ion.Writer) error { return w.WriteSymbol(tokT(seqLongCtl(61))) }, ckValue, model.SymV(model.T(seqLongCtl(61)))},
+	{"WriteString(125 plain bytes, then control characters)", func(w ion.Writer) error { return w.WriteString(seqLongCtl(125)) }, ckValue, model.StrV(seqLongCtl(125))},
 	{"WriteBlob(buf[0:100])", nil, ckValue, model.BlobV(seqLobPattern()[0:100])},
 	{"WriteBlob(buf[100:200])", nil, ckValue, model.BlobV(seqLobPattern()[100:200])},
 	{"WriteClob(buf[200:300])", nil, ckValue, model.ClobV(seqLobPattern()[200:300])},
